@@ -17,7 +17,7 @@ RULE = ("Hypothesis generates, valid by construction, programs for 1-3 threads (
         "(more than 8 slots used by one thread), or a marker-valued/low-bit argument or an odd-address function was encoded. distinct = distinct case text.")
 ASSUMPTIONS = G.E1_ASSUMPTIONS + ["hook: DEFER_QUEUE_SIZE=8", "a function pointer equal to the marker value (~1) is not callable on x86-64 and is not generated",
                                   "the reclaimer's 100 ms poll is a yield on a virtual clock", "bounded: <=3 threads, <=14 ops per thread"]
-EXAMPLES = {"quick": 200, "thorough": 4000}
+EXAMPLES = {"quick": 500, "thorough": 6000}
 FLAVORS = ["memb", "mb", "qsbr", "bp"]
 FAULTS = ("futex_spurious", "futex_eintr")
 
